@@ -179,7 +179,7 @@ func genC15(r *Rng, tier string) *c15W {
 	g := w.materialise()
 	saveV, saveE := gen.VLabels, gen.ELabels
 	gen.VLabels, gen.ELabels = []string{"A", "B", "Z"}, []string{"k", "l", "m"}
-	p := gen.Program(r, g, gen.ProgOpts{MaxLen: 6, Oracle: true, IndexBias: r.Chance(50), NoNull: true})
+	p := gen.Program(r, g, gen.ProgOpts{MaxLen: 6, Oracle: true, IndexBias: r.Chance(50), NoNull: !r.Chance(30)})
 	gen.VLabels, gen.ELabels = saveV, saveE
 	w.Prog = gen.StmtsJSON(p)
 	return w
@@ -239,7 +239,7 @@ func execC15(w *c15W, x *Exec) *Outcome {
 	if w.Run.CapDiv > 1 {
 		o.Count("fault:buffer_scaling", 1)
 	}
-	if gen.TypeCheck(stmts) != gen.WellTyped {
+	if gen.TypeCheckExt(stmts) != gen.WellTyped {
 		o.Count("program_outside_model", 1)
 		return o
 	}
